@@ -71,6 +71,12 @@ def gen_hier(rng: random.Random, ndefs=3, max_children=3, max_pins=3, leaf_p=0.5
                 d["expo"] = [[p[0], p[1], f"h{k}_{i}"] for i, p in enumerate(hand)] + \
                             [[p[0], p[1], nm] for p, nm in zip(rest, names)]
                 d["auto"] = names
+        elif len(d["expo"]) >= 2 and k < ndefs - 1 and rng.random() < 0.35:
+            # exposure names that are a cyclic shift of the INNER names of the exposed pins: the sub-circuit's pin "p1" is,
+            # say, its component's pin p0 — whoever resolves an external name must not look at inner names
+            inner = [port_name(desc, children[c], q) for c, q, _ in d["expo"]]
+            if len(set(inner)) == len(inner):
+                d["expo"] = [[c, q, inner[(i + 1) % len(inner)]] for i, (c, q, _) in enumerate(d["expo"])]
     desc["top"] = ndefs - 1
     return desc
 
@@ -100,14 +106,26 @@ def build_all(desc):
     for k, d in enumerate(desc["defs"]):
         sts = []
         with lk.Solver(name=f"def{k}") as S:
-            for ch in d["children"]:
+            conns = [c for c in d["conns"]]
+            prng = random.Random(1000 * k + len(d["children"]))
+            for ci, ch in enumerate(d["children"]):
                 if "empty" in ch:
                     sts.append(empty_model(ch.get("ekind", 0)).put())
                 elif "leaf" in ch:
                     sts.append(netlib.comp_model(ch["leaf"]).put())
                 else:
-                    sts.append(built[ch["sub"]][0].put())
-            for a, b in d["conns"]:
+                    # a sub-solver may be wired at placement: SUB.put(<name of its exposed pin>, (placed structure, pin))
+                    cand = [c for c in conns if (c[0][0] == ci and c[1][0] < ci) or (c[1][0] == ci and c[0][0] < ci)]
+                    if cand and prng.random() < 0.5:
+                        c = cand[0]
+                        conns.remove(c)
+                        me, other = (c[0], c[1]) if c[0][0] == ci else (c[1], c[0])
+                        sts.append(built[ch["sub"]][0].put(
+                            port_name(desc, ch, me[1]),
+                            (sts[other[0]], port_name(desc, d["children"][other[0]], other[1]))))
+                    else:
+                        sts.append(built[ch["sub"]][0].put())
+            for a, b in conns:
                 lk.connect(sts[a[0]].pin[port_name(desc, d["children"][a[0]], a[1])],
                            sts[b[0]].pin[port_name(desc, d["children"][b[0]], b[1])])
             auto = set(d.get("auto", []))
